@@ -1,2 +1,403 @@
-From Clikit Require Import Base.Prelude.
-Theorem placeholder : True. Proof. exact I. Qed.
+(* C13 - help pages: rendering succeeds, the page lists every visible command, argument and option (own and inherited,
+   under the preferred and the alternative name) and never a hidden or disabled command, no line is wider than the
+   terminal, and "help <path>" shows the page of "<path> --help".
+
+   Model/Wrap.v is textwrap.wrap, Model/Help.v the elements ApplicationHelp / CommandHelp put on the block layout
+   (command_page, application_page) and their rendering (render_page); both are compared with the real code on every
+   run of the harness.  A layout is a list of (indentation, element); an element is a paragraph, a labelled
+   paragraph (label, text, padding, aligned) or an empty line. *)
+From Coq Require Import Lia Permutation Sorted.
+From Clikit Require Import Base.Prelude Base.Res Model.Conv Model.Flags Model.Format Model.Markup Model.Wrap Model.Help.
+From Clikit Require Import Proofs.WrapLemmas Proofs.HelpLemmas.
+
+(* ================= textwrap.wrap ================= *)
+(* For EVERY text and every width >= 1 wrapping succeeds (the loop of the model never runs out of its fuel) ... *)
+Theorem wrap_total : forall text w, (1 <= w)%Z -> exists ls, wrap text w = Ok ls.
+Proof. exact wrap_total_lemma. Qed.
+Print Assumptions wrap_total.
+(* ... and a width below 1 is the only way to fail: ValueError, as textwrap raises. *)
+Theorem wrap_value_error : forall text w, wrap text w = Err ValueError <-> (w <= 0)%Z.
+Proof. exact wrap_value_error_lemma. Qed.
+Print Assumptions wrap_value_error.
+(* No line is longer than the width, ... *)
+Theorem wrap_lines_fit : forall text w ls, wrap text w = Ok ls -> Forall (fun l => (Z.of_nat (length l) <= w)%Z) ls.
+Proof. exact wrap_lines_fit_lemma. Qed.
+Print Assumptions wrap_lines_fit.
+(* ... none is empty and none holds a newline. *)
+Theorem wrap_lines_nonempty : forall text w ls, wrap text w = Ok ls -> Forall (fun l => l <> []) ls.
+Proof. exact wrap_lines_nonempty_lemma. Qed.
+Print Assumptions wrap_lines_nonempty.
+Theorem wrap_lines_no_newline : forall text w ls, wrap text w = Ok ls -> Forall (Forall (fun c => c <> 10%N)) ls.
+Proof. exact wrap_lines_no_newline_lemma. Qed.
+Print Assumptions wrap_lines_no_newline.
+(* Wrapping drops or keeps white space and nothing else: without the white-space characters (str.isspace) the lines
+   spell the text, in order.  (With "space" = U+0020 only this is FALSE: see wrap_drops_nbsp below.) *)
+Theorem wrap_keeps_text : forall text w ls, wrap text w = Ok ls ->
+  filter (fun c => negb (is_space c)) (concat ls) = filter (fun c => negb (is_space c)) (munge text).
+Proof. exact wrap_keeps_text_lemma. Qed.
+Print Assumptions wrap_keeps_text.
+
+Definition ex_text : str := [104;101;108;108;111;32;119;111;114;108;100;44;32;97;32;119;101;108;108;45;107;110;111;119;110;32;116;101;120;116]%N.   (* hello world, a well-known text *)
+Example wrap_example : wrap ex_text 9 =
+  Ok [[104;101;108;108;111]; [119;111;114;108;100;44;32;97]; [119;101;108;108;45]; [107;110;111;119;110]; [116;101;120;116]]%N.
+Proof. vm_compute. reflexivity. Qed.
+(* "abc <NBSP> abcd" at width 5: the no-break space is a chunk of its own, blank for str.strip(), dropped at the end of
+   the line - and the space before it stays *)
+Example wrap_drops_nbsp : wrap [97;98;99;32;160;32;97;98;99;100]%N 5 = Ok [[97;98;99;32]; [97;98;99;100]]%N.
+Proof. vm_compute. reflexivity. Qed.
+
+(* ================= what a page lists ================= *)
+(* A command page, for EVERY configuration: every argument of the chain (own and inherited) and every option (own:
+   OPTIONS, of the bases: GLOBAL OPTIONS) is on the page at indentation 2; every enabled, named, non-hidden sub-command
+   contributes its whole block: its name at indentation 2, its arguments and options at indentation 4. *)
+Theorem command_page_complete : forall sty app_name ch aliases help subs,
+  let page := command_page sty app_name ch aliases help subs in
+  (forall a, In a (chain_args ch) -> In (2, render_argument a) page)
+  /\ (forall h, In h (own_opts ch) -> In (2, render_option h) page)
+  /\ (forall h, In h (base_opts ch) -> In (2, render_option h) page)
+  /\ (forall s, In s subs -> sb_enabled s = true -> sb_anonymous s = false -> sb_hidden s = false ->
+        incl (sub_block s) page
+        /\ In (2, EPara (u_tag (sb_name s))) page
+        /\ (forall a, In a (sb_args s) -> In (4, render_argument a) page)
+        /\ (forall h, In h (sb_opts s) -> In (4, render_option h) page)).
+Proof. exact command_page_complete_lemma. Qed.
+Print Assumptions command_page_complete.
+(* own and inherited, said per level of the chain (application, command, sub-command ...) *)
+Theorem command_page_inherited : forall sty app_name ch aliases help subs l, In l ch ->
+  (forall a, In a (lv_args l) -> In (2, render_argument a) (command_page sty app_name ch aliases help subs))
+  /\ (forall h, In h (lv_opts l) -> In (2, render_option h) (command_page sty app_name ch aliases help subs)).
+Proof. exact command_page_inherited. Qed.
+Print Assumptions command_page_inherited.
+(* the block of a sub-command also carries its description and help text *)
+Theorem sub_block_complete : forall s,
+  In (2, EPara (u_tag (sb_name s))) (sub_block s)
+  /\ (forall a, In a (sb_args s) -> In (4, render_argument a) (sub_block s))
+  /\ (forall h, In h (sb_opts s) -> In (4, render_option h) (sub_block s))
+  /\ (forall d, nonempty_opt (sb_desc s) = Some d -> In (4, EPara d) (sub_block s))
+  /\ (forall d, nonempty_opt (sb_help s) = Some d -> In (4, EPara d) (sub_block s)).
+Proof. exact sub_block_lists. Qed.
+Print Assumptions sub_block_complete.
+
+(* The label of an option spells the preferred name in the c1 style, then the alternative name in brackets;
+   the label of an argument spells <name>. *)
+Theorem render_option_names : forall h,
+  elem_label (render_option h) =
+  if bit (o_flags (h_o h)) 0      (* PREFER_LONG_NAME *)
+  then C1 ++ (DASH :: DASH :: o_long (h_o h)) ++ C1E ++
+       match o_short (h_o h) with Some s => [32; 40]%N ++ (DASH :: s) ++ [41]%N | None => [] end
+  else C1 ++ (DASH :: match o_short (h_o h) with Some s => s | None => [] end) ++ C1E ++
+       [32; 40]%N ++ (DASH :: DASH :: o_long (h_o h)) ++ [41]%N.
+Proof. exact render_option_names_lemma. Qed.
+Print Assumptions render_option_names.
+Theorem render_argument_name : forall a,
+  elem_label (render_argument a) = C1 ++ [60%N] ++ C1E ++ C1 ++ a_name (h_a a) ++ [62%N] ++ C1E.
+Proof. exact render_argument_name_lemma. Qed.
+Print Assumptions render_argument_name.
+
+(* A synopsis joins one part per option - "[" preferred name ... "]" - and one or two per argument - <name> - with
+   spaces: every part is in the list joined, hence a piece of the text. *)
+Theorem synopsis_lists_all : forall sty app_name names opts args prefix lo,
+  let t := elem_text (synopsis sty app_name names opts args prefix lo) in
+  t = join_with 32%N (syn_parts sty opts args)
+  /\ (forall h, In h opts -> In (syn_opt_part sty h) (syn_parts sty opts args) /\ infix_of (syn_opt_part sty h) t
+                 /\ exists tail, syn_opt_part sty h = [91%N] ++ fst (opt_preferred (h_o h)) ++ tail)
+  /\ (forall a, In a args -> exists p, In p (syn_arg_parts sty a) /\ infix_of ([60%N] ++ a_name (h_a a)) p
+                 /\ In p (syn_parts sty opts args) /\ infix_of p t).
+Proof.
+  intros sty app_name names opts args prefix lo. cbv zeta.
+  destruct (synopsis_lists_all_lemma sty app_name names opts args prefix lo) as [Ho Ha]. cbv zeta in Ho, Ha.
+  split; [apply synopsis_text|]. split.
+  - intros h Hh. destruct (Ho h Hh). repeat split; auto. apply syn_opt_part_name.
+  - intros a Hin. destruct (syn_arg_part_name sty a) as (p & Hp & Hn). exists p. destruct (Ha a p Hin Hp). auto.
+Qed.
+Print Assumptions synopsis_lists_all.
+
+(* USAGE holds one synopsis per usage entry (the names spelled, the options, the arguments).  The entries are: the
+   command itself when it has no enabled default sub-command, else its enabled default sub-commands - HIDDEN OR NOT:
+   the code prints a hidden default sub-command in USAGE -, then the enabled, non-hidden, non-default sub-commands. *)
+Theorem usage_complete : forall sty app_name ch aliases help subs,
+  (forall names opts args lo, In ((names, opts, args), lo) (usage_entries ch subs) ->
+     exists prefix, In (2, synopsis sty app_name names opts args prefix lo) (command_page sty app_name ch aliases help subs))
+  /\ ((forall s, In s subs -> sb_enabled s = true -> sb_default s = false) -> In (own_fmt ch, false) (usage_entries ch subs))
+  /\ (forall s, In s subs -> sb_enabled s = true -> sb_default s = true ->
+        In (sub_fmt ch s, negb (sb_anonymous s)) (usage_entries ch subs))
+  /\ (forall s, In s subs -> sb_enabled s = true -> sb_default s = false -> sb_hidden s = false ->
+        In (sub_fmt ch s, false) (usage_entries ch subs)).
+Proof.
+  intros sty app_name ch aliases help subs. split; [intros; now apply command_page_usage|].
+  split; [|split; [apply usage_lists_defaults|apply usage_lists_visible]].
+  intros H. unfold usage_entries. apply in_or_app. left.
+  destruct (filter sb_default (filter sb_enabled subs)) as [|d ds] eqn:E; [left; reflexivity|].
+  assert (Hd : In d (filter sb_default (filter sb_enabled subs))) by (rewrite E; left; reflexivity).
+  apply filter_In in Hd. destruct Hd as [Hd1 Hd2]. apply filter_In in Hd1. destruct Hd1 as [Hd0 Hd1].
+  rewrite (H d Hd0 Hd1) in Hd2. discriminate.
+Qed.
+Print Assumptions usage_complete.
+(* ... and nothing else: an entry is the command's own or that of an enabled sub-command that is default or not hidden *)
+Theorem usage_entries_origin : forall ch subs e, In e (usage_entries ch subs) ->
+  (e = (own_fmt ch, false) /\ (forall s, In s subs -> sb_enabled s = true -> sb_default s = false))
+  \/ exists s, In s subs /\ sb_enabled s = true /\ (sb_default s = true \/ sb_hidden s = false) /\ fst e = sub_fmt ch s.
+Proof. exact usage_entry_origin. Qed.
+Print Assumptions usage_entries_origin.
+
+(* The application page: every global option, the two built-in arguments, the synopsis, and every enabled, named,
+   non-hidden command under the label <c1>name</c1> at indentation 2. *)
+Theorem application_page_complete : forall sty app_name display version gopts cmds help,
+  let page := application_page sty app_name display version gopts cmds help in
+  (forall h, In h gopts -> In (2, render_option h) page)
+  /\ In (2, render_argument the_command_arg) page /\ In (2, render_argument the_arg_arg) page
+  /\ In (2, synopsis sty app_name [] gopts [the_command_arg; the_arg_arg] [] false) page
+  /\ (forall c, In c cmds -> ac_enabled c && negb (ac_anonymous c) && negb (ac_hidden c) = true ->
+        In (2, ELab (C1 ++ ac_name c ++ C1E) (ac_desc c) 2 true) page).
+Proof. exact application_page_complete_lemma. Qed.
+Print Assumptions application_page_complete.
+
+(* ================= what a page never lists ================= *)
+(* The command page is  before ++ COMMANDS section ++ after; the section is its header and the blocks of the sub-commands
+   L, where L is a permutation of the enabled, named, non-hidden sub-commands (each as often as configured: once),
+   sorted by name; the lines of the section at indentation 2 are exactly the names of L. *)
+Theorem hidden_never_listed : forall sty app_name ch aliases help subs,
+  command_page sty app_name ch aliases help subs =
+    command_page_before sty app_name ch aliases subs ++ commands_section subs ++ command_page_after ch help
+  /\ commands_section subs =
+     match named_subs subs with [] => [] | _ => (0, EPara H_COMMANDS) :: flat_map sub_block (listed_subs subs) end
+  /\ Permutation (listed_subs subs) (filter visible subs)
+  /\ StronglySorted (fun a b => str_leb (sb_name a) (sb_name b) = true) (listed_subs subs)
+  /\ filter (fun x => Nat.eqb (fst x) 2) (commands_section subs) = map (fun s => (2, EPara (u_tag (sb_name s)))) (listed_subs subs).
+Proof.
+  intros. split; [apply command_page_decomposes|]. destruct (commands_section_spec subs) as (H1 & H2 & H3).
+  split; [exact H1|]. split; [exact H2|]. split; [exact H3|]. apply commands_section_names.
+Qed.
+Print Assumptions hidden_never_listed.
+(* hence a name line in the section belongs to an enabled, named, non-hidden sub-command *)
+Theorem hidden_never_listed_names : forall subs s, In (2, EPara (u_tag (sb_name s))) (commands_section subs) ->
+  exists s', In s' subs /\ sb_name s' = sb_name s /\ sb_enabled s' = true /\ sb_anonymous s' = false /\ sb_hidden s' = false.
+Proof. exact hidden_never_listed_lemma. Qed.
+Print Assumptions hidden_never_listed_names.
+(* The same for AVAILABLE COMMANDS of the application page. *)
+Theorem hidden_never_listed_app : forall sty app_name display version gopts cmds help,
+  application_page sty app_name display version gopts cmds help =
+    application_page_before sty app_name display version gopts ++ available_section cmds ++ description_block help
+  /\ available_section cmds =
+     match named_cmds cmds with [] => [] | _ => (0, EPara H_AVAILABLE) :: map cmd_line (listed_cmds cmds) ++ [(0, EEmpty)] end
+  /\ Permutation (listed_cmds cmds) (filter cmd_visible cmds)
+  /\ StronglySorted (fun a b => str_leb (ac_name a) (ac_name b) = true) (listed_cmds cmds)
+  /\ (forall name text padding aligned, In (2, ELab (C1 ++ name ++ C1E) text padding aligned) (available_section cmds) ->
+        exists c, In c cmds /\ ac_name c = name /\ ac_enabled c = true /\ ac_anonymous c = false /\ ac_hidden c = false).
+Proof.
+  intros. split; [apply application_page_decomposes|]. destruct (available_section_spec cmds) as (H1 & H2 & H3).
+  split; [exact H1|]. split; [exact H2|]. split; [exact H3|]. apply hidden_never_listed_app_lemma.
+Qed.
+Print Assumptions hidden_never_listed_app.
+
+(* ================= width ================= *)
+(* render_elem hands the formatter the text  elem_raw W off ind vis e,  vis being the visible width of the label (what
+   remove_format leaves of it); apart from the formatter it fails only when there is no room to wrap: *)
+Theorem render_elem_ok : forall W off f ind e,
+  match e with
+  | ELab label _ _ _ => forall x, remove_format f label = Ok x -> (1 <= wrap_width W off ind (zlen (snd x)) e)%Z ->
+      exists raw, elem_raw W off ind (zlen (snd x)) e = Ok raw /\ render_elem W off f ind e = emit (fst x) raw
+  | _ => (match e with EEmpty => True | _ => (1 <= wrap_width W off ind 0 e)%Z end) ->
+      exists raw, elem_raw W off ind 0 e = Ok raw /\ render_elem W off f ind e = emit f raw
+  end.
+Proof. exact render_elem_ok_lemma. Qed.
+Print Assumptions render_elem_ok.
+(* For EVERY element, formatter result (vis), alignment offset and width: the text ends with a newline; of its lines the
+   first is at most W - 1 long plus the invisible part of the label (zlen label - vis: the markup the formatter
+   removes), every other one at most W - 1; a paragraph has all lines within W - 1.  (elem_raw = Ok already says the
+   wrap width is >= 1.)  The label is on one line. *)
+Theorem page_fits : forall W off ind vis e raw,
+  elem_raw W off ind vis e = Ok raw -> (1 <= W)%Z -> (0 <= vis)%Z -> no_nl (elem_label e) ->
+  exists body, raw = body ++ [10%N]
+    /\ (zlen (hd [] (split_on 10%N body)) <= match e with ELab label _ _ _ => W - 1 + (zlen label - vis) | _ => W - 1 end)%Z
+    /\ Forall (fun l => (zlen l <= W - 1)%Z) (tl (split_on 10%N body)).
+Proof. exact page_fits_lemma. Qed.
+Print Assumptions page_fits.
+(* The null formatter writes the text as it is: no line of the page is wider than W - 1 ... *)
+Theorem page_fits_null : forall W f l s, f_kind f = FNull -> (1 <= W)%Z -> one_line_labels l ->
+  render_page W f l = Ok s -> Forall (fun ln => (zlen ln <= W - 1)%Z) (split_on 10%N s).
+Proof. exact page_fits_null_lemma. Qed.
+Print Assumptions page_fits_null.
+(* ... and rendering succeeds on any terminal leaving room for one character behind every indentation and label
+   (needed_width: the largest of  indentation + label column + 2;  the label column is the alignment offset). *)
+Theorem page_renders_null : forall W f l, f_kind f = FNull -> (needed_width l <= W)%Z -> exists s, render_page W f l = Ok s.
+Proof. exact page_renders_null_lemma. Qed.
+Print Assumptions page_renders_null.
+(* Both, for the help pages of EVERY configuration whose names hold no newline. *)
+Theorem command_help_renders_and_fits : forall W f sty app_name ch aliases help subs,
+  f_kind f = FNull ->
+  (match app_name with Some n => no_nl n | None => True end) -> Forall no_nl (chain_names ch) ->
+  Forall arg_one_line (chain_args ch) -> Forall opt_one_line (own_opts ch) -> Forall opt_one_line (base_opts ch) ->
+  Forall sub_one_line subs ->
+  (needed_width (command_page sty app_name ch aliases help subs) <= W)%Z ->
+  exists s, render_page W f (command_page sty app_name ch aliases help subs) = Ok s
+            /\ Forall (fun ln => (zlen ln <= W - 1)%Z) (split_on 10%N s).
+Proof.
+  intros W f sty app_name ch aliases help subs Hf H1 H2 H3 H4 H5 H6 HW.
+  destruct (page_renders_null_lemma W f _ Hf HW) as [s Hs]. exists s. split; [exact Hs|].
+  eapply page_fits_null_lemma; [exact Hf| |apply command_page_one_line; eassumption|exact Hs].
+  pose proof (needed_width_pos (command_page sty app_name ch aliases help subs)). lia.
+Qed.
+Print Assumptions command_help_renders_and_fits.
+Theorem application_help_renders_and_fits : forall W f sty app_name display version gopts cmds help,
+  f_kind f = FNull ->
+  (match app_name with Some n => no_nl n | None => True end) -> Forall opt_one_line gopts ->
+  Forall (fun c => no_nl (ac_name c)) cmds ->
+  (needed_width (application_page sty app_name display version gopts cmds help) <= W)%Z ->
+  exists s, render_page W f (application_page sty app_name display version gopts cmds help) = Ok s
+            /\ Forall (fun ln => (zlen ln <= W - 1)%Z) (split_on 10%N s).
+Proof.
+  intros W f sty app_name display version gopts cmds help Hf H1 H2 H3 HW.
+  destruct (page_renders_null_lemma W f _ Hf HW) as [s Hs]. exists s. split; [exact Hs|].
+  eapply page_fits_null_lemma; [exact Hf| |apply application_page_one_line; eassumption|exact Hs].
+  pose proof (needed_width_pos (application_page sty app_name display version gopts cmds help)). lia.
+Qed.
+Print Assumptions application_help_renders_and_fits.
+(* With ANY formatter, rendering a page never fails otherwise than with ValueError (markup the formatter refuses in a
+   configured text, or a terminal too narrow to wrap): never a TypeError / IndexError ... *)
+Theorem render_error_kind : forall W f l k, render_page W f l = Err k -> k = ValueError.
+Proof. exact render_error_kind_lemma. Qed.
+Print Assumptions render_error_kind.
+
+(* ================= examples: the hypotheses above are met ================= *)
+Definition FORCE : str := ([102;111;114;99;101]%N).   (* force *)
+Definition LEVEL : str := ([108;101;118;101;108]%N).   (* level *)
+Definition FILE : str := ([102;105;108;101]%N).   (* file *)
+Definition RUN : str := ([114;117;110]%N).   (* run *)
+Definition SECRET : str := ([115;101;99;114;101;116]%N).   (* secret *)
+Definition OLD : str := ([111;108;100]%N).   (* old *)
+Definition ADD : str := ([97;100;100]%N).   (* add *)
+Definition SERVER : str := ([115;101;114;118;101;114]%N).   (* server *)
+Definition APP : str := ([97;112;112]%N).   (* app *)
+Definition SRV : str := ([115;114;118]%N).   (* srv *)
+Definition DESC_FORCE : str := ([70;111;114;99;101;32;116;104;101;32;111;112;101;114;97;116;105;111;110;32;101;118;101;110;32;119;104;101;110;32;116;104;101;32;116;97;114;103;101;116;32;101;120;105;115;116;115;32;97;108;114;101;97;100;121]%N).   (* Force the operation even when the target exists already *)
+Definition DESC_FILE : str := ([84;104;101;32;102;105;108;101;32;116;111;32;114;101;97;100;44;32;100;101;115;99;114;105;98;101;100;32;97;116;32;115;111;109;101;32;108;101;110;103;116;104;32;115;111;32;116;104;97;116;32;116;104;101;32;116;101;120;116;32;104;97;115;32;116;111;32;98;101;32;119;114;97;112;112;101;100]%N).   (* The file to read, described at some length so that the text has to be wrapped *)
+Definition DESC_SUB : str := ([68;111;101;115;32;115;111;109;101;116;104;105;110;103;32;117;115;101;102;117;108]%N).   (* Does something useful *)
+Definition ex_force : hopt :=
+  {| h_o := {| o_long := FORCE; o_short := Some ([102]%N); o_flags := 5; o_default := VNone |};
+     h_odesc := Some DESC_FORCE; h_vname := ([46;46;46]%N) |}.
+Definition ex_level : hopt :=       (* short name preferred, a value with a default *)
+  {| h_o := {| o_long := LEVEL; o_short := Some ([108]%N); o_flags := 8 + 512; o_default := VInt 3 |};
+     h_odesc := None; h_vname := LEVEL |}.
+Definition ex_file : harg := {| h_a := {| a_name := FILE; a_flags := 1; a_default := VNone |}; h_adesc := Some DESC_FILE |}.
+Definition ex_sub (name : str) (hidden enabled : bool) : sub :=
+  {| sb_name := name; sb_default := false; sb_anonymous := false; sb_enabled := enabled; sb_hidden := hidden;
+     sb_desc := Some DESC_SUB; sb_help := None; sb_opts := [ex_level]; sb_args := [ex_file] |}.
+Definition ex_subs : list sub := [ex_sub RUN false true; ex_sub SECRET true true; ex_sub OLD false false; ex_sub ADD false true].
+Definition ex_chain : list level :=
+  [{| lv_name := None; lv_opts := [ex_level]; lv_args := [] |}; {| lv_name := Some SERVER; lv_opts := [ex_force]; lv_args := [ex_file] |}].
+Definition ex_page : layout := command_page [] (Some APP) ex_chain [SRV] (Some DESC_FILE) ex_subs.
+Definition ex_null : formatter := {| f_kind := FNull; f_styles := []; f_stack := [] |}.
+
+(* the visible sub-commands are listed, sorted; the hidden and the disabled one are not *)
+Example ex_listed : filter (fun x => Nat.eqb (fst x) 2) (commands_section ex_subs) = [(2, EPara (u_tag ADD)); (2, EPara (u_tag RUN))].
+Proof. vm_compute. reflexivity. Qed.
+Example ex_visible : map sb_name (filter visible ex_subs) = [RUN; ADD].
+Proof. vm_compute. reflexivity. Qed.
+Example ex_complete : In (2, render_option ex_force) ex_page /\ In (2, render_option ex_level) ex_page
+  /\ In (2, render_argument ex_file) ex_page /\ In (4, render_option ex_level) ex_page.
+Proof. vm_compute. tauto. Qed.
+Example ex_labels : elem_label (render_option ex_force) = C1 ++ ([45;45]%N) ++ FORCE ++ C1E ++ ([32;40;45;102;41]%N)
+  /\ elem_label (render_option ex_level) = C1 ++ ([45;108]%N) ++ C1E ++ ([32;40;45;45]%N) ++ LEVEL ++ ([41]%N).
+Proof. vm_compute. split; reflexivity. Qed.
+(* a hidden default sub-command is printed in USAGE, not under COMMANDS *)
+Definition ex_hidden_default : sub :=
+  {| sb_name := SECRET; sb_default := true; sb_anonymous := false; sb_enabled := true; sb_hidden := true;
+     sb_desc := None; sb_help := None; sb_opts := []; sb_args := [] |}.
+Example ex_usage_hidden_default :
+  usage_entries ex_chain [ex_hidden_default] = [(([SERVER; SECRET], [], [ex_file]), true)]
+  /\ commands_section [ex_hidden_default] = [(0, EPara H_COMMANDS)].
+Proof. vm_compute. split; reflexivity. Qed.
+(* the page needs 44 columns: it renders at 44, wraps (more lines than elements) with every line within 43, and fails at 43 *)
+Example ex_needed_width : needed_width ex_page = 44%Z.
+Proof. vm_compute. reflexivity. Qed.
+Example ex_one_line : one_line_labels ex_page.
+Proof.
+  apply command_page_one_line; cbn; repeat constructor; try nl_char.
+Qed.
+Example ex_renders : match render_page 44 ex_null ex_page with
+                     | Ok s => forallb (fun l => Nat.leb (length l) 43) (split_on 10%N s) && Nat.ltb (length ex_page) (length (split_on 10%N s))
+                     | Err _ => false end = true.
+Proof. vm_compute. reflexivity. Qed.
+Example ex_too_narrow : render_page 43 ex_null ex_page = Err ValueError.
+Proof. vm_compute. reflexivity. Qed.
+
+(* one labelled paragraph at width 30, label column 14, the label 21 characters of which 12 are visible: the first line may
+   be 29 + 9 long (it is 34), the others 29 (two of them are) *)
+Example ex_elem_raw :
+  match elem_raw 30 14 2 12 (render_option ex_force) with
+  | Ok raw => map (@length N) (split_on 10%N raw) = [34; 25; 29; 29; 23; 0]
+  | Err _ => False end.
+Proof. vm_compute. reflexivity. Qed.
+Example ex_sub_description : In (4, EPara DESC_SUB) ex_page.
+Proof. vm_compute. tauto. Qed.
+(* an application page: a visible, a hidden, a disabled and another visible command *)
+Definition ex_cmds : list appcmd :=
+  [{| ac_name := SERVER; ac_anonymous := false; ac_enabled := true; ac_hidden := false; ac_desc := DESC_SUB |};
+   {| ac_name := SECRET; ac_anonymous := false; ac_enabled := true; ac_hidden := true; ac_desc := DESC_SUB |};
+   {| ac_name := OLD; ac_anonymous := false; ac_enabled := false; ac_hidden := false; ac_desc := DESC_SUB |};
+   {| ac_name := ADD; ac_anonymous := false; ac_enabled := true; ac_hidden := false; ac_desc := DESC_FILE |}].
+Definition ex_app_page : layout :=
+  application_page [] (Some APP) (Some APP) (Some ([49;46;50]%N)) [ex_force; ex_level] ex_cmds (Some DESC_FILE).
+Example ex_available :
+  map (fun x => elem_label (snd x)) (filter (fun x => Nat.eqb (fst x) 2) (available_section ex_cmds)) = [C1 ++ ADD ++ C1E; C1 ++ SERVER ++ C1E].
+Proof. vm_compute. reflexivity. Qed.
+Example ex_app_complete : In (2, render_option ex_force) ex_app_page /\ In (2, ELab (C1 ++ ADD ++ C1E) DESC_FILE 2 true) ex_app_page.
+Proof. vm_compute. tauto. Qed.
+Example ex_app_needed_width : needed_width ex_app_page = 33%Z.
+Proof. vm_compute. reflexivity. Qed.
+Example ex_app_one_line : one_line_labels ex_app_page.
+Proof. apply application_page_one_line; cbn; repeat constructor; try nl_char. Qed.
+Example ex_app_renders : match render_page 33 ex_null ex_app_page with
+                         | Ok s => forallb (fun l => Nat.leb (length l) 32) (split_on 10%N s) && Nat.ltb (length ex_app_page) (length (split_on 10%N s))
+                         | Err _ => false end = true.
+Proof. vm_compute. reflexivity. Qed.
+(* the plain formatter refuses an unknown colour in a configured text: ValueError, the error pastel raises *)
+Example ex_markup_error :
+  match mk_formatter false [] with
+  | Ok f => render_page 80 f [(0, EPara ([60;102;103;61;122;122;62;120;60;47;62]%N))] = Err ValueError       (* <fg=zz>x</> *)
+            /\ render_page 80 f [(0, EPara ([60;102;103;61;114;101;100;62;120;60;47;62]%N))] = Ok ([120; 10]%N)   (* <fg=red>x</> *)
+  | Err _ => False end.
+Proof. vm_compute. split; reflexivity. Qed.
+
+(* ================= "help <path>" and "<path> --help" ================= *)
+From Clikit Require Import Model.Parser Model.Resolver Model.Switches Proofs.ResolverLemmas Proofs.HelpTargetLemmas.
+(* The page shown is the page of the help target (C09: help_switch).  The word "help" in front is dropped ... *)
+Theorem help_word_dropped : forall a toks,
+  (match toks with t :: _ => str_eqb t S_help = false | [] => True end) ->
+  help_target a (S_help :: toks) = help_target a toks.
+Proof. exact help_word_dropped. Qed.
+Print Assumptions help_word_dropped.
+(* ... and an option behind the names does not change the names walked: for a path of plain names reaching a command
+   without default sub-commands, "help <path>" and "<path> <option> ..." (--help, -h) have the same target, the path
+   walked - provided the lenient parse of either line does not raise (C02: it raises nothing but ValueError).
+   PARTIAL.  The full statement would be, for every application and path,
+     help_target a (S_help :: path) = help_target a (path ++ [T_help]);
+   missing: commands with default sub-commands (they are probed by parsing the whole line with their own leniency, so
+   the extra option token can change which default is picked or raise NoSuchOption when the configuration defines no
+   such option) and the two parse hypotheses. *)
+Theorem help_same_page_partial : forall a path o r b p x1 x2,
+  forallb lead_ok path = true ->
+  (match path with t :: _ => str_eqb t S_help = false | [] => True end) ->
+  starts_dash o = true ->
+  walk (named_of (ap_cmds a)) None path = Ok (Some (b, p)) ->
+  defaults_of (b_subs b) = [] ->
+  parse (b_fmt b) true path = Ok x1 -> parse (b_fmt b) true (path ++ o :: r) = Ok x2 ->
+  help_target a (S_help :: path) = Ok p /\ help_target a (path ++ o :: r) = Ok p.
+Proof. exact help_same_target. Qed.
+Print Assumptions help_same_page_partial.
+
+Definition ex_cfg : appcfg :=
+  {| ac_opts := [{| o_long := S_help; o_short := Some [104%N]; o_flags := 4; o_default := VNone |}]; ac_args := [];
+     ac_cmds := [Cmd SERVER [] false false true false [] [] [Cmd ADD [] false false true false [] [] []]] |}.
+Example ex_help_same_page :
+  match build_app ex_cfg with
+  | Ok a =>
+    match walk (named_of (ap_cmds a)) None [SERVER; ADD] with
+    | Ok (Some (b, p)) =>
+      match defaults_of (b_subs b), parse (b_fmt b) true [SERVER; ADD], parse (b_fmt b) true ([SERVER; ADD] ++ [T_help]) with
+      | [], Ok _, Ok _ => help_target a [S_help; SERVER; ADD] = Ok [SERVER; ADD] /\ help_target a [SERVER; ADD; T_help] = Ok [SERVER; ADD]
+      | _, _, _ => False end
+    | _ => False end
+  | Err _ => False end.
+Proof. vm_compute. split; reflexivity. Qed.
